@@ -159,7 +159,7 @@ fn trace_string(trace: &[TLine]) -> String {
     // lines without a second field are not records: a third of the traces carry an empty line, a blank
     // line of spaces and a one-word line between their records (the parser skips them; chosen from the
     // content so that a replay reproduces them)
-    let noise = trace.len() >= 2 && trace.iter().map(|l| l.t).sum::<u64>() % 3 == 0;
+    let noise = trace.len() >= 2 && trace.iter().fold(0u64, |a, l| a.wrapping_add(l.t)) % 3 == 0;
     for (i, l) in trace.iter().enumerate() {
         if noise {
             if i == 1 {
@@ -212,10 +212,12 @@ pub fn run_once(c: &SimCase, r: &RunSpec) -> RunOut {
     }
     match rx.recv_timeout(Duration::from_secs(WATCHDOG_SECS)) {
         Ok(out) => out,
-        Err(_) => {
+        Err(std::sync::mpsc::RecvTimeoutError::Timeout) => {
             TIMED_OUT.store(true, std::sync::atomic::Ordering::SeqCst);
             RunOut { log: vec![], res: Err("timeout") }
         }
+        // the run's thread ended without a result: a panic outside the supervised call, i.e. in this harness
+        Err(std::sync::mpsc::RecvTimeoutError::Disconnected) => RunOut { log: vec![], res: Err("harness-thread-died") },
     }
 }
 
@@ -693,7 +695,8 @@ pub fn gen_trace(p: &mut Prng) -> Vec<(u64, bool)> {
     if style == 5 {
         return gen_const_rate_trace(p);
     }
-    let mut t: u64 = if p.chance(1, 4) { p.below(50_000_000) } else { 0 };
+    // now and then absolute timestamps of a capture: beyond 2^53 ns (not every u64 is an f64)
+    let mut t: u64 = if p.chance(1, 16) { 1_700_000_000_000_000_000 + p.below(1000) } else if p.chance(1, 4) { p.below(50_000_000) } else { 0 };
     let mut out = Vec::new();
     let mut dir = p.chance(2, 3);
     for _ in 0..n {
